@@ -41,7 +41,7 @@ RTOL = 1e-9
 
 def cases(tier, rng):
     # one pair costs 10-20 CPU s (almost all of it XLA compilation of the two differently typed programs)
-    n_cases, per = (8, 1) if tier == "quick" else (56, 4)
+    n_cases, per = (8, 1) if tier == "quick" else (56, 3)
     out = []
     for i in range(n_cases):
         out.append({"kind": "pairs", "n": per, "scene_seed": int(rng.integers(1 << 30)), "force": i % 8, "third": tier != "quick"})
